@@ -39,7 +39,28 @@ def qr_cases(draw, tier, size=None):
     kind = draw(st.sampled_from(["generic", "generic", "int", "pure_imag", "zero_real_diag", "product_rank", "zero_cols",
                                  "dup_cols", "spectrum", "zero", "scaled", "scaled", "nearly_real", "unit_entries",
                                  "trapezoidal", "trapezoidal", "nearly_trapezoidal", "nearly_trapezoidal", "leading_block",
-                                 "graded_cols"]))
+                                 "graded_cols", "stacked_R", "tall_hessenberg"]))
+    if kind in ("stacked_R", "tall_hessenberg"):
+        # tall inputs whose LEADING block is already reduced while rows below it are not: stacked R factors [R1; R2] /
+        # [R; B] of a two-level factorisation, and the (n+1) x n (or taller) Hessenberg matrices of Arnoldi
+        if m <= n:
+            m = n + draw(st.integers(1, 3))
+        A = draw(gen.qarray(m, n, draw(st.sampled_from(["generic", "int"]))))[0].copy()
+        if kind == "stacked_R":
+            for i in range(n):
+                A[i, :i] = 0.0
+                A[i, i] = [abs(A[i, i, 0]) + draw(st.sampled_from([0.5, 1.0, 2.0])), 0.0, 0.0, 0.0]
+            if draw(st.booleans()):
+                for i in range(n, m):
+                    A[i, :min(i - n, n)] = 0.0           # a second upper triangular factor underneath
+            if not A[n:].any():
+                A[n, n - 1] = [0.0, 1.0, 0.0, 0.0]
+        else:
+            for i in range(m):
+                A[i, :max(0, i - 1)] = 0.0
+            if n >= 1 and not A[n, n - 1].any():
+                A[n, n - 1] = [0.0, 0.0, 1.0, 0.0]
+        return {"A": np.ascontiguousarray(A), "kind": kind}
     if kind in ("trapezoidal", "nearly_trapezoidal", "leading_block"):
         # columns that are exactly (or nearly: relative 1e-3 .. 1e-9) zero below a quaternion pivot: already reduced
         # inputs, where an elimination step has nothing (or almost nothing) to annihilate
